@@ -154,6 +154,55 @@ theorem emit_first_shift {σ : Type} (n : Nat) (sts : List σ) (i : Nat) :
     (emitFirst n sts).1 = sts.take n ∧ (emitFirst n sts).2[i]? = sts[n + i]? := by
   simp [emitFirst]
 
+/-- **emit_first_then_update**: a history that CONTINUES after `EmitTo::First(n)` — the surviving groups are
+    renumbered `id - n`, and after any further batch the state of (new) group `i` is the scalar state of old group
+    `n + i` fed exactly the later rows of group `i` that pass the filter -/
+theorem emit_first_then_update {σ ρ : Type} (a : Acc σ ρ) (n : Nat) (sts : List σ) (rows : List GRow) (i : Nat) :
+    (groupsUpdate a (emitFirst n sts).2 rows)[i]? =
+      sts[n + i]?.map (fun s => a.update s ((rows.filter (fun r => r.keep && r.g == i)).map (·.v))) := by
+  rw [groups_eq_scalar, (emit_first_shift n sts i).2]
+
+/-- the null-tracking state survives an emit correctly: after `build(First(n))` the tracker answers for new
+    group `i` what it answered for old group `n + i` — in the bitmap form and in the fast-path counter form
+    (where the counter must be decreased by `n`) — and the emitted validity is that of the first `n` groups -/
+theorem seen_build_first (s : Seen) (n i : Nat) :
+    (s.buildFirst n).2.get i = s.get (n + i) ∧
+    (i < n → (∀ k, s = .all k → n ≤ k) → (s.buildFirst n).1.getD i false = s.get i) := by
+  cases s with
+  | all k =>
+    refine ⟨by simp only [Seen.buildFirst, Seen.get, decide_eq_decide]; omega, ?_⟩
+    intro hi hk
+    have := hk k rfl
+    simp only [Seen.buildFirst, Seen.get]
+    have h1 : i < k := by omega
+    simp [List.getD_eq_getElem?_getD, List.getElem?_replicate, hi, h1]
+  | some b =>
+    refine ⟨by simp [Seen.buildFirst, Seen.get, List.getD_eq_getElem?_getD, List.getElem?_drop], ?_⟩
+    intro hi _
+    simp [Seen.buildFirst, Seen.get, List.getD_eq_getElem?_getD, List.getElem?_take, hi]
+
+/-- materialising the fast-path counter gives the same answers -/
+theorem seen_builder_get (s : Seen) (total i : Nat) : (Seen.some (s.builder total)).get i = s.get i := by
+  cases s with
+  | all k =>
+    simp only [Seen.builder, Seen.get, List.getD_eq_getElem?_getD]
+    by_cases h : i < k
+    · simp [List.getElem?_append_left, h]
+    · have : k ≤ i := by omega
+      simp [List.getElem?_append_right, this, List.getElem?_replicate, h]
+      split <;> rfl
+  | some b =>
+    simp only [Seen.builder, Seen.get, List.getD_eq_getElem?_getD]
+    by_cases h : i < b.length
+    · simp [List.getElem?_append_left, h]
+    · have : b.length ≤ i := by omega
+      simp [List.getElem?_append_right, this, List.getElem?_replicate]
+      split <;> rfl
+
+-- a counter that is NOT decreased (the seeded defect) claims that the new group 1 has seen a value
+example : (Seen.all 3).buildFirst 2 = ([true, true], Seen.all 1) ∧ (Seen.all 1).get 1 = false ∧ (Seen.all 3).get 1 = true := by
+  decide
+
 example : (groupsUpdate sum [none, none, none]
     [⟨0, some 1#64, true⟩, ⟨2, some 5#64, true⟩, ⟨0, some 2#64, false⟩, ⟨0, none, true⟩, ⟨2, some 1#64, true⟩])
     = [some 1#64, none, some 6#64] := by decide
